@@ -151,7 +151,7 @@ func CheckC15(tier string) int {
 	}
 	depth := 2
 	if tier == "thorough" {
-		depth = 3
+		depth = 5
 	}
 	seen := map[string]bool{}
 	frontier := []node{{w.Freeze(), nil}}
